@@ -30,23 +30,25 @@ def plan(tier):
                  cfg=dict(NS=2, NO=2, MaxOps=3, KB='link', OpSet1=READER + ('W',), OpSet=WRITER + ('R',))),
         ]
     return [
-        dict(name='c21-link-full', how='graph', limit=None,
-             cfg=dict(NS=2, NO=2, MaxOps=2, KB='link', OpSet1=READER, OpSet=WRITER)),
+        dict(name='c21-reader-writer', how='graph', limit=5000,
+             cfg=dict(NS=2, NO=2, MaxOps=2, KB=('link', 'volatile', 'nonopt'), OpSet1=READER, OpSet=WRITER)),
+        # negative control: with what Set.db_reverse_remove really does transcribed (RefPhantomRemove = FALSE)
+        # TLC must find the RepeatableOrLoud counterexample
+        dict(name='c21-negative-control', how='negative', expect='RepeatableOrLoud',
+             cfg=dict(NS=2, NO=2, MaxOps=2, KB='link', OpSet1=READER, OpSet=WRITER, Ref=False)),
         dict(name='c21-coverage', how='check', coverage=True,
              cfg=dict(NS=2, NO=2, MaxOps=2, KB='link', OpSet1=READER + ('W', 'GFU'), OpSet=WRITER + ('F', 'X'))),
-        dict(name='c21-link-3ops', how='graph', limit=5000,
+        # reader and writer with 3 operations each, exhaustive
+        dict(name='c21-link-3ops', how='check',
              cfg=dict(NS=2, NO=2, MaxOps=3, KB='link', OpSet1=READER, OpSet=WRITER)),
-        dict(name='c21-link-symmetric', how='graph', limit=4000,
-             cfg=dict(NS=2, NO=2, MaxOps=2, KA='link', OpSet=('R', 'W', 'Q', 'RC', 'LC', 'D'))),
-        dict(name='c21-scalar-3ops', how='graph', limit=None,
+        # symmetric sessions: everybody reads, writes and reads collections
+        dict(name='c21-link-symmetric', how='graph', limit=3000,
+             cfg=dict(NS=2, NO=2, MaxOps=2, KB='link', OpSet=('R', 'W', 'Q', 'RC', 'LC'))),
+        dict(name='c21-scalar-3ops', how='graph', limit=3000,
              cfg=dict(NS=2, NO=1, MaxOps=3, OpSet1=('R', 'Q', 'GFU', 'W'), OpSet=WRITER)),
-        dict(name='c21-volatile', how='graph', limit=2000,
-             cfg=dict(NS=2, NO=1, MaxOps=3, KB='volatile', OpSet1=('R', 'Q', 'W', 'F'), OpSet=('W', 'D'))),
-        dict(name='c21-nonopt', how='graph', limit=2000,
-             cfg=dict(NS=2, NO=1, MaxOps=3, KB='nonopt', OpSet1=('R', 'Q', 'W'), OpSet=('W', 'D'))),
         # one reader, two writers, programs <= 4: simulation
-        dict(name='c21-3s-4ops-sim', how='simulate', num=3000, depth=22,
-             cfg=dict(NS=3, NO=2, MaxOps=4, KB='link', OpSet1=READER + ('W', 'GFU'), OpSet=WRITER + ('R', 'F'))),
+        dict(name='c21-3s-4ops-sim', how='simulate', num=2500, depth=24,
+             cfg=dict(NS=3, NO=2, MaxOps=4, KB=('link', 'nonopt'), OpSet1=READER + ('W', 'GFU'), OpSet=WRITER + ('R', 'F'))),
     ]
 
 
